@@ -111,6 +111,15 @@ Tick(dh, dt) ==
      /\ Install(S2)
      /\ Record([a |-> "tick", kind |-> "", e |-> dh, k |-> "", d |-> "", dt |-> dt])
 
+\* Genesis round trip (Export followed by Init into an empty store): every pending timer, its data
+\* and both next-timeout values survive; nothing fires.
+Reload ==
+  /\ Record([a |-> "reload", kind |-> "", e |-> 0, k |-> "", d |-> ""])
+  /\ UNCHANGED <<now, timers, next, fired, uid, gone, nticks>>
+
+\* GetFrontTimers(kind): the timers with expiry <= next[kind], in (expiry,key) order (a query).
+FrontAnswer(kind) == {t \in timers[kind] : t.e <= next[kind]}
+
 Init == /\ now = [H |-> 1, T |-> 1]
         /\ timers = [kind \in Kinds |-> {}]
         /\ next = [kind \in Kinds |-> INF]
@@ -119,6 +128,7 @@ Init == /\ now = [H |-> 1, T |-> 1]
 Env == \/ \E kind \in Kinds, e \in 2..MaxE, k \in Keys, d \in Progs : Add(kind, e, k, d)
        \/ \E kind \in Kinds, e \in 2..MaxE, k \in Keys \cup {"z"} : Del(kind, e, k)
        \/ \E dh \in {1, 2}, dt \in {0, 1, 2} : Tick(dh, dt)
+       \/ Reload
 
 Next == nops < MaxOps /\ nops' = nops + 1 /\ Env
 Spec == Init /\ [][Next]_vars
@@ -134,7 +144,14 @@ RandDel == \E kind \in Kinds : timers[kind] # {} /\
 RandHas == LET kind == RandomElement(Kinds) e == RandomElement(2..MaxE) k == RandomElement(Keys \cup {"z"})
            IN Has(kind, e, k)
 RandTick == LET dh == RandomElement({1, 1, 2}) dt == RandomElement({0, 1, 2}) IN Tick(dh, dt)
-GenNext == nops < MaxOps /\ nops' = nops + 1 /\ (RandAdd \/ RandDel \/ RandHas \/ RandTick)
+\* kinds are weighted by listing: adds and ticks dominate, queries are rare
+GenNext == /\ nops < MaxOps /\ nops' = nops + 1
+           /\ \E c \in {RandomElement(1..10)} :     \* bound once (a LET would be re-evaluated per use)
+                \/ c \in 1..4 /\ RandAdd
+                \/ c \in 5..7 /\ RandTick
+                \/ c = 8 /\ (RandDel \/ ((\A q \in Kinds : timers[q] = {}) /\ RandTick))
+                \/ c = 9 /\ RandHas
+                \/ c = 10 /\ Reload
 Emit == nops < MaxOps \/ PrintT(<<"BEH", ToJson(hist)>>)
 
 -----------------------------------------------------------------------------
